@@ -1473,7 +1473,7 @@ def inject_id_state(run):
     if kind in ("huge", "mixed"):
         s = r.choice(slides)
         c = xp(s._element, "//p:cNvPr")[-1]
-        c.set("id", str(r.choice([2147483646, 2147483647, 2147483648, 65535])))
+        c.set("id", str(r.choice([2147483646, 2147483647, 2147483648, 65535, 4294967295, 4294967294])))  # (the last: the largest xsd:unsignedInt)
     if kind == "dups":
         s = r.choice(slides)
         cs = xp(s._element, "//p:cNvPr")
